@@ -335,6 +335,20 @@ def pair_worker(ns, items, res, opts):
             elif v1 not in ok:
                 explore.add_simple_finding(res, prop, f'sibling-order::got={v1.split(":")[1] if v1.startswith("BUILTIN") else v1}',
                                            f'two message elements {label}: classified {v1}, reference allows {sorted(ok)}', document=t1)
+            elif wf is None and '+junk+' not in label:
+                # the verdict is a function of the document: it must not depend on what the process classified before
+                a, b = label.split('+')
+                for tag in (b, a, b):
+                    single = f'<mos><messageID>6</messageID><{tag}' + (' operation="MOVE"' if tag == 'roElementAction' else '') + f'><roID>RO1</roID></{tag}></mos>'
+                    _classify(ns, 'str', single, None, wf)
+                    v3 = _classify(ns, 'str', t1, None, wf)
+                    res.transitions += 2
+                    res.extra['reclassified_after_another_document'] += 1
+                    if v3 != v1:
+                        explore.add_simple_finding(res, prop, 'history::verdict-depends-on-earlier-classifications',
+                                                   f'two message elements {label}: classified {v1}, and {v3} after a {tag} document was classified in the same process',
+                                                   document=t1, classified_in_between=single)
+                        break
 
 
 def encoded_docs():
